@@ -4,7 +4,7 @@ from . import common, projgen, projcheck, projrun, clirun
 
 PROF = projgen.profile(n_builders=(1, 3), n_apps=(1, 3), p_tasks=0.75, p_task_fail=0.3, p_task_killed=0.15, p_cli_builders=0.0, p_cli_apps=0.0,
                        p_cli_select=0.2, p_cli_disable=0.15, p_cli_define=0.3, p_custom_build=0.02, p_download=0.02, p_app_elsewhere=0.1,
-                       p_hard_missing=0.0, p_cycle=0.0, p_varopts=0.1)
+                       p_hard_missing=0.0, p_cycle=0.0, p_varopts=0.1, p_empty_task_map=0.15)
 TASKS = ["run", "flash", "info", "mtask", "nosuchtask"]
 
 
@@ -37,6 +37,11 @@ def gen_scenario(seed, i):
     for d in p["files"]["laze-project.yml"]:
         for c in (d.get("contexts") or []) + (d.get("builders") or []):
             defined |= set((c.get("tasks") or {}).keys())
+    for docs in p["files"].values():
+        for d in docs:
+            for dm in (d.get("defaults") or {}).values():
+                if isinstance(dm, dict):
+                    defined |= set((dm.get("tasks") or {}).keys())      # tasks inherited from `defaults:`
     pool = sorted(defined) * 4 + TASKS if defined else TASKS
     inv = {"args": a, "flags": fl, "task": rng.choice(pool), "task_args": rng.choice([[], [], ["x"], ["-a", "b c"]]),
            "ninja_rc": rng.choice([0, 0, 0, 1, "kill"])}
